@@ -12,8 +12,9 @@ def _oct(n: int, width: int) -> bytes:
 
 def header(name: bytes, size: int, typ: bytes = b"0", *, visor: bool = True, offset_data: int = 0, text_pgs: int = 0, fixup_pgs: int = 0,
            mode: int = 0o644, uid: int = 0, gid: int = 0, mtime: int = 0, linkname: bytes = b"", prefix: bytes = b"", uname: bytes = b"root",
-           gname: bytes = b"root", gnu: bool = False) -> bytes:
-    assert len(name) <= 100 and len(prefix) <= 150 and len(linkname) <= 100
+           gname: bytes = b"root", gnu: bool = False, word2: int = 0) -> bytes:
+    # a ustar prefix may use all 155 bytes (345..499); in a visor header the last bytes of that field are the data offset
+    assert len(name) <= 100 and len(prefix) <= (150 if visor else 155) and len(linkname) <= 100
     b = bytearray(512)
     b[0 : len(name)] = name
     b[100:108] = _oct(mode, 8)
@@ -34,7 +35,8 @@ def header(name: bytes, size: int, typ: bytes = b"0", *, visor: bool = True, off
     b[297 : 297 + len(gname)] = gname
     b[345 : 345 + len(prefix)] = prefix
     if visor:
-        b[496:512] = struct.pack("<IIII", offset_data, 0, text_pgs, fixup_pgs)
+        # the word after the data offset is not the offset's upper half (vmtar keeps a text-segment offset there)
+        b[496:512] = struct.pack("<IIII", offset_data, word2, text_pgs, fixup_pgs)
     b[148:156] = b" " * 8
     chk = sum(b)
     b[148:156] = (f"{chk:06o}").encode() + b"\0 "
@@ -57,11 +59,13 @@ def build(rng, members: list[dict], *, data_order: str = "shuffle", align: int =
         prefix = b""
         pre = []
         if len(nb) > 100 or m.get("longname"):
-            if m.get("prefix") and "/" in name and len(nb) <= 250:
-                # ustar prefix (kept <= 150 bytes so it cannot touch the visor fields at 496..511)
-                cut = name.rfind("/", 0, min(len(name), 150))
+            if m.get("prefix") and "/" in name and len(nb) <= 255:
+                # ustar prefix: <= 150 bytes in visor headers (it must not touch the visor fields at 496..511), the
+                # full 155 bytes for ordinary inline members
+                lim = 155 if kind == "std" else 150
+                cut = name.rfind("/", 0, min(len(name), lim + 1))
                 p, rest = name[:cut].encode(), name[cut + 1 :].encode()
-                if 0 < len(p) <= 150 and 0 < len(rest) <= 100:
+                if 0 < len(p) <= lim and 0 < len(rest) <= 100:
                     prefix, nb = p, rest
             if not prefix:
                 ln = nb + b"\0"
@@ -124,7 +128,7 @@ def build(rng, members: list[dict], *, data_order: str = "shuffle", align: int =
             _, i, nb, prefix = h
             d = members[i]["data"]
             out += header(nb, len(d), members[i].get("typeflag", b"0"), offset_data=offs[i], prefix=prefix, text_pgs=members[i].get("text_pgs", 0),
-                          fixup_pgs=members[i].get("fixup_pgs", 0))
+                          fixup_pgs=members[i].get("fixup_pgs", 0), word2=members[i].get("word2", 0))
         else:
             out += h
     out += b"\0" * 1024
